@@ -330,7 +330,7 @@ def container_freshness(analysis: Analysis, res: RuleResult) -> None:
     for node in ast.walk(mod.tree):
         if isinstance(node, ast.Assign):
             for t in node.targets:
-                if isinstance(t, ast.Attribute) and isinstance(t.value, ast.Name) and t.value.id == "self" and t.attr in ("new_state", "queue", "children", "values"):
+                if isinstance(t, ast.Attribute) and isinstance(t.value, ast.Name) and t.attr in ("new_state", "queue", "children", "values"):
                     fn = common.func_of_node(analysis, mod, node)
                     v = node.value
                     fresh = (isinstance(v, ast.Dict) and not v.keys) or (isinstance(v, ast.Call) and unparse(v.func) in ("dict", "deque", "collections.deque") and not v.args and not v.keywords)
@@ -341,12 +341,7 @@ def container_freshness(analysis: Analysis, res: RuleResult) -> None:
         info = analysis.p.funcs.get(fn)
         if info is None:
             raise AnalysisError(f"anchor vanished: {fn}")
-        bodies = list(info.node.body)
-        for c in ast.walk(info.node):
-            if isinstance(c, ast.Call) and isinstance(c.func, ast.Attribute) and isinstance(c.func.value, ast.Name) and c.func.value.id == "self" and c.func.attr.startswith("_") and not c.func.attr.startswith("__") and info.cls is not None:
-                m = analysis.p.find_method(info.cls.qual, c.func.attr)
-                if hasattr(m, "node"):
-                    bodies.extend(m.node.body)
+        bodies = [x for b in common.self_helper_bodies(analysis, info) for x in b.body]
         for attr in ("new_state", "queue"):
             ok = any(isinstance(st, ast.Assign) and any(unparse(t) == f"self.{attr}" for t in st.targets) and ((isinstance(st.value, ast.Dict) and not st.value.keys) or (isinstance(st.value, ast.Call) and unparse(st.value.func) in ("dict", "deque", "collections.deque") and not st.value.args)) for st in bodies)
             res.add("C07-R5", f"{fn} / gives the node its own `{attr}`", ok, common.where(analysis, info, info.node), f"self.{attr} = <fresh container>" if ok else f"{fn} does not assign a fresh `{attr}` container: nodes (e.g. all nodes restored from one pickle file) can share one sleep state / hold queue")
